@@ -102,11 +102,15 @@ def mainActs (d : StateDef) : List ActionRef :=
 def invTrans (d : StateDef) : List Trans :=
   d.invoke.flatMap (fun i => i.onDone ++ i.onError)
 
-/-- action names demanded by one state. In the main lists `spawn_*` goes to the services and built-ins
-    are skipped; in an invocation's `onDone`/`onError` lists only built-ins are skipped (as written) -/
+/-- the actions of the invocations' `onDone` / `onError` transitions -/
+def invActs (d : StateDef) : List ActionRef :=
+  (invTrans d).flatMap (·.actions)
+
+/-- action names demanded by one state. `spawn_*` goes to the services and built-ins are skipped, in the
+    main lists and (the same routing, written a second time) in an invocation's `onDone`/`onError` lists -/
 def defActions (d : StateDef) : List String :=
   ((mainActs d).filter (fun a => !isSpawn a.type && !isBuiltin a.type)).map (·.type)
-  ++ (((invTrans d).flatMap (·.actions)).filter (fun a => !isBuiltin a.type)).map (·.type)
+  ++ ((invActs d).filter (fun a => !isSpawn a.type && !isBuiltin a.type)).map (·.type)
 
 def defGuards (d : StateDef) : List String :=
   (mainTrans d ++ invTrans d).flatMap transGuardNames
@@ -115,8 +119,11 @@ def defGuards (d : StateDef) : List String :=
 def invokeSrcs (d : StateDef) : List String :=
   d.invoke.filterMap (fun i => match i.src with | some s => if s = "" then none else some s | none => none)
 
+/-- service names demanded by one state: the keys of the spawn directives of the main lists, the invoked
+    sources, the keys of the spawn directives of the invocations' `onDone`/`onError` lists -/
 def defServices (d : StateDef) : List String :=
   ((mainActs d).filter (fun a => isSpawn a.type)).map (fun a => spawnKey a.type) ++ invokeSrcs d
+  ++ ((invActs d).filter (fun a => isSpawn a.type)).map (fun a => spawnKey a.type)
 
 mutual
 /-- every state definition of a subtree (the recursion of `_extract_logic_from_node`) -/
